@@ -117,6 +117,7 @@ def execute_replica(plan, ridx, repo):
                    "mkdirs": plan.get("mkdirs", []), "files": files, "ops": seg["ops"],
                    "env_tags": env_tags, "frame_check": plan.get("frame_check", True),
                    "log_debug": bool(env_spec.get("log_debug")),
+                   "conc_plain": bool(replica.get("plain")),
                    "clock_ticks": ticks}
             # the run's private temporary directory: anything the library leaves in
             # tempfile.gettempdir() survives a restart of the run, never leaks into another run
@@ -269,6 +270,36 @@ def compare_replicas(plan, per_replica):
                     continue
                 if rec.get("outcome") == "skipped" or ref.get("outcome") == "skipped":
                     continue    # (an isolated lane may not find a file another lane writes)
+                if op["op"] == "CONC" and not ("final" in rec and "final" in ref):
+                    continue        # schedules are per interpreter: nothing else to compare
+                if op["op"] == "CONC":
+                    # the calls made after a cancellation, against the same calls made in an
+                    # interpreter in which nothing was ever cancelled or interleaved
+                    for li, lane in enumerate(op["lanes"]):
+                        for si, sub in enumerate(lane):
+                            a, b = rec["final"][li][si], ref["final"][li][si]
+                            if a == b:
+                                continue
+                            plain_is_rec = bool(plan["replicas"][ridx].get("plain"))
+                            alone, after = (a, b) if plain_is_rec else (b, a)
+                            props, check, csite = conc_attribution(sub, alone, after, "cancel.")
+                            for prop in props:
+                                fails.append({
+                                    "prop": prop, "check": check, "site": csite,
+                                    "detail": "lane %d call %d (%s %s): in a fresh interpreter "
+                                              "%s, in the interpreter where lane %s had been "
+                                              "cancelled at %s: %s" % (
+                                                  li, si, sub["k"],
+                                                  sub.get("fmt") or sub.get("name"),
+                                                  json.dumps(alone, sort_keys=True)[:160],
+                                                  (op.get("interrupt") or {}).get("lane"),
+                                                  rec.get("cancelled_at") or
+                                                  ref.get("cancelled_at"),
+                                                  json.dumps(after, sort_keys=True)[:160]),
+                                    "tags": ["conc.lanes", "hist.threads",
+                                             "hist.after_cancelled_call", "env.fresh_interpreter"],
+                                    "i": rec["i"], "replica": ridx})
+                    continue
                 fmt = op.get("fmt") or op.get("name") or ""
                 site = "%s:%s" % (op["op"], fmt)
                 tags = ["env.replica_differs", "fmt." + fmt] + list(op.get("tags", []))
@@ -292,6 +323,40 @@ def compare_replicas(plan, per_replica):
                                           key, ref[key], ridx, rec[key]),
                                       "tags": tags, "i": rec["i"], "replica": ridx})
     return fails
+
+
+CONC_RT = {"uvl": "C01", "json": "C05", "afm": "C06", "fide": "C07", "glencoe": "C08"}
+CONC_NEG = {"uvl": "C04", "json": "C09", "afm": "C09", "fide": "C09", "glencoe": "C09",
+            "xml": "C09"}
+CONC_WRITER = {"uvl": "UVLWriter", "afm": "AFMWriter", "json": "JSONWriter",
+               "glencoe": "GlencoeWriter", "fide": "FeatureIDEWriter", "splot": "SPLOTWriter",
+               "clafer": "ClaferWriter", "pl": "PLWriter"}
+CONC_READER = {"uvl": "UVLReader", "afm": "AFMReader", "json": "JSONReader",
+               "glencoe": "GlencoeReader", "fide": "FeatureIDEReader", "xml": "XMLReader"}
+
+
+def conc_attribution(sub, alone, other, prefix="conc."):
+    """(properties, check id, site) of a caller-thread call whose outcome `other` differs from
+    the outcome `alone` of the same call made on its own."""
+    kind = sub["k"]
+    fmt = sub.get("fmt") or sub.get("name")
+    if kind == "W":
+        return (["C12"] + ([CONC_RT[fmt]] if fmt in CONC_RT else []), prefix + "write_differs",
+                CONC_WRITER[fmt] + ".transform")
+    if kind == "R":
+        props = [p for p in (CONC_RT.get(fmt), CONC_NEG.get(fmt)) if p]
+        check = prefix + "read_differs"
+        if alone.get("o") == "raised" and other.get("o") == "ok":
+            check = prefix + "invalid_accepted"
+            props = [CONC_NEG[fmt]]
+        if alone.get("o") == "ok" and other.get("o") == "ok" and not alone.get("wf") and \
+                other.get("wf"):
+            props.append("C02")
+        return props, check, CONC_READER[fmt] + ".transform"
+    if kind == "A":
+        return ["C19"], prefix + "result_differs", "GenerateRandomAttribute.execute"
+    return (["C19"] + (["C17"] if fmt == "FMMetrics" else []), prefix + "result_differs",
+            fmt + ".execute")
 
 
 def RT_OR_NEG(fmt):
